@@ -36,6 +36,11 @@ def burst(stream, t, c, k, long_line=0, style=None):
     elif style == "odd-text":
         # still newline-terminated text: empty lines, leading/trailing blanks, tabs, a lone CR, non-ASCII
         b = b + b"\n\n  indented \t tabbed  \n" + "caf\u00e9 \u2713 \U0001F680\n".encode() + b"progress 10%\rprogress 100%\n" + b"[monorail | looks like a header | x | y]\n"
+    elif style == "ansi":
+        # coloured output (still newline-terminated text): a colour closed on the same line, bold switched on
+        # and reset only in the next burst (or never), a cursor movement, a 256-colour sequence left open
+        b = (b"\x1b[0m" if k else b"") + b"\x1b[32mok\x1b[0m " + b + b"\x1b[2K\x1b[1A" + b"\x1b[1;31m" + ("%s of %s:%s burst %d FAILED\n" % (stream, c, t, k)).encode() + \
+            (b"\x1b[38;5;208mstill orange\n" if k % 2 == 0 else b"")
     if long_line:
         # short line, then a line of `long_line` bytes, then a short line - all in one flush block
         mid = (("%s-%s-%s-%d-" % (stream[:3], c, t, k)).encode() * (long_line // 10 + 1))[:long_line - 1] + b"\n"
@@ -183,9 +188,19 @@ def c15_run(desc):
                 if lis is not None:
                     c.wait(lambda: b"burst 0" in lis.p.out, 5)
                 kill_now()
+                if lis is not None and desc.get("pattern") == "restart-big":
+                    # the listener is started again at once, with the same filters, on the same address
+                    lis = Listener(c, r, s, desc["listener"])
             for k in (1, 2):
                 for ch in g1:
-                    say(ch, k)
+                    if desc.get("pattern") == "restart-big":
+                        # far more than a pipe buffer on both streams of both executables
+                        t_ = os.path.relpath(ch.cwd, r.dir)
+                        c.send(ch, ["outrep 3000 " + ("big stdout of %s burst %d ........................\n" % (t_, k)).encode().hex(),
+                                    "errrep 3000 " + ("big stderr of %s burst %d ........................\n" % (t_, k)).encode().hex()])
+                        c.wait_acks(ch, 15)
+                    else:
+                        say(ch, k)
                 pause()
             if desc.get("pattern") == "tail":
                 # an unterminated last line that stays pending across a flush tick before the pipe closes
@@ -308,6 +323,11 @@ def c15_scenarios(tier):
     for cfg in (["--stdout", "--stderr", "-t", "a/"], ["--stdout", "-t", "a", "nosuch"], ["--stderr", "-t", "a/sub"], ["--stdout", "--stderr", "-c", "nosuch"], ["--stdout", "-t", "nosuch", "-c", "build"]):
         for fate in ("never", "mid_output"):
             out.append({"listener": cfg, "fate": fate})
+    # the listener is killed in the middle of the output and a new one with the same filters is started at once on the
+    # same address; afterwards both executables write far more than a pipe buffer on both streams
+    out.append({"listener": None, "fate": "mid_output", "pattern": "restart-big"})
+    for cfg in (["--stdout", "--stderr"], ["--stdout", "--stderr", "-t", "a"], ["--stderr"]):
+        out.append({"listener": cfg, "fate": "mid_output", "pattern": "restart-big"})
     # clean SIGTERM variant
     for fate in FATES[1:]:
         out.append({"listener": ["--stdout", "--stderr"], "fate": fate, "term": True})
@@ -413,7 +433,8 @@ def c20_run(desc):
         try:
             flags = list(desc["streams"])
             if desc["targets"]:
-                flags += ["-t"] + desc["targets"]
+                # many_unknown: the filter also names thousands of things that are no targets (a generated list)
+                flags += ["-t"] + desc["targets"] + ["no-such-target-%05d-padding-padding" % i for i in range(desc.get("many_unknown", 0))]
             if desc["commands"]:
                 flags += ["-c"] + desc["commands"]
             lis = Listener(c, r, s, flags, desc.get("verbosity"))
@@ -663,8 +684,9 @@ def c20_scenarios(tier):
         out.append({"streams": ["--stdout", "--stderr"], "targets": [], "commands": [], "short": True, "long_line": ll})
     # other kinds of newline-terminated text: CRLF line endings; blank lines, tabs, lone CR, non-ASCII,
     # and a line that merely looks like a (colourless) header
-    for st in ("crlf", "odd-text"):
+    for st in ("crlf", "odd-text", "ansi"):
         out.append({"streams": ["--stdout", "--stderr"], "targets": [], "commands": [], "short": True, "style": st})
+    out.append({"streams": ["--stderr"], "targets": ["a"], "commands": [], "short": True, "style": "ansi"})
     # both targets with long paths of 2- and 3-byte characters (different ASCII prefix and suffix lengths)
     for s_, t, c in [(["--stdout", "--stderr"], [], []), (["--stdout"], [LONG_A], []), (["--stderr"], [LONG_B], ["build"])]:
         out.append({"streams": s_, "targets": t, "commands": c, "short": True, "names": "long"})
@@ -676,6 +698,9 @@ def c20_scenarios(tier):
     # listener and run invoked as -f <abs config> from an unrelated directory
     for s_, t, c in [(["--stdout", "--stderr"], [], []), (["--stdout"], ["a"], ["build"])]:
         out.append({"streams": s_, "targets": t, "commands": c, "short": True, "foreign": True})
+    # a filter list far longer than any line buffer (about 40 KB, 150 KB; thorough 600 KB)
+    for k in ([1000, 4000] if tier == "quick" else [1000, 2000, 4000, 16000]):
+        out.append({"streams": ["--stdout", "--stderr"], "targets": ["a"], "commands": [], "short": True, "many_unknown": k})
     # commands mapped to files with unrelated names through commands.definitions
     for s_, t, c in [(["--stdout", "--stderr"], [], []), (["--stdout", "--stderr"], [], ["build"]), (["--stderr"], ["a"], ["test"]), (["--stdout"], [], ["compile"])]:
         out.append({"streams": s_, "targets": t, "commands": c, "short": True, "defs": True})
